@@ -34,6 +34,7 @@ from .denoise_client import get_number_of_cores
 from .interop.adapter import ExecutionDeliveredNoResults, instantiate_adapter, OutputNotParseable, \
     ResultsIndicatedAsInvalid
 from .model.build_cmd import BuildCommand
+from .output import UIError
 from .ui import escape_braces
 
 
@@ -481,13 +482,18 @@ class Executor(object):
         build_command.mark_succeeded()
 
     def process_output(self, name, stdout_result, stderr_result):
-        with open_with_enc(self.build_log, "a", encoding="utf-8") as log_file:
-            if stdout_result:
-                log_file.write(name + "|STD:")
-                log_file.write(stdout_result)
-            if stderr_result:
-                log_file.write(name + "|ERR:")
-                log_file.write(stderr_result)
+        try:
+            with open_with_enc(self.build_log, "a", encoding="utf-8") as log_file:
+                if stdout_result:
+                    log_file.write(name + "|STD:")
+                    log_file.write(stdout_result)
+                if stderr_result:
+                    log_file.write(name + "|ERR:")
+                    log_file.write(stderr_result)
+        except OSError as err:
+            raise UIError(
+                "Error: Was not able to write the build log.\n{ind}%s\n{ind}%s\n" % (
+                    escape_braces(str(self.build_log)), escape_braces(str(err))), err)
 
     def without_missing_binaries(self, run_exe_missing, runs):
         is_first = True
